@@ -181,8 +181,14 @@ Inductive op :=
 | OModDel (name : string)              (* sys.modules.pop(name, None) *)
 | OPathIns (d : string)                (* sys.path.insert(0, d) *)
 | OMutate (k : key) (c : N).           (* in-place edit of the object the attribute holds (sys.argv[1:] = [...]) *)
-Inductive ending := Finish | Raise | SysExit | OsExit.
+(* Unreadable: the script cannot even be read (setup.py that is not UTF-8): extractor.contents raises *)
+Inductive ending := Finish | Raise | SysExit | OsExit | Unreadable.
 Definition program := (list op * ending)%type.
+Definition is_unreadable (en : ending) : bool := match en with Unreadable => true | _ => false end.
+(* what of the script runs: nothing when it could not be read *)
+Definition eff_ops (p : program) : list op := if is_unreadable (snd p) then [] else fst p.
+(* the read raises BEFORE `with patches:` is entered when it does not sit inside the try (T1: read_in_try) *)
+Definition read_aborts (p : program) : bool := negb read_in_try && is_unreadable (snd p).
 
 Definition k_chdir : key := ("os", "chdir").
 Definition k_exit : key := ("os", "_exit").
@@ -250,6 +256,7 @@ Definition end_outcome (e : env) (en : ending) (s : st) : outcome :=
   match en with
   | Finish => Normal
   | Raise => Exc
+  | Unreadable => Exc       (* UnicodeDecodeError from extractor.contents, inside the try *)
   | SysExit => caught
   | OsExit =>
       let cur := get k_exit s in
@@ -328,11 +335,30 @@ Definition enter_parse (e : env) (s : st) : (st * ptoks) + st :=
       inl (s6, mkToks oldc bt it (if captures_warnings then capture_started s else false) (path s5))
   end.
 
+(* everything _parse_setup_py has installed when `with patches:` is reached: fake modules, the three
+   begin_patch replacements, the hook on sys.meta_path - not yet the inner patch *)
+Definition enter_installed (e : env) (s : st) : option st :=
+  let s1 := if captures_warnings then capture_warnings s else s in
+  let s2 := if mmem "numpy" (mods s1) then s1 else insert_fakes numpy_fakes s1 in
+  let cy :=
+    if e_cython e then
+      match get k_cythonize s2 with
+      | Some v => Some (set_attr k_cythonize v_cython_fake s2)
+      | None => None
+      end
+    else Some (insert_fakes cython_fakes s2) in
+  match cy with
+  | None => None
+  | Some s3 =>
+      let '(s4, _) := begin_all begin_patched begin_base s3 in
+      Some (if meta_append_before_with then with_meta (meta s4 ++ [e_hook e]) s4 else s4)
+  end.
+
 (* the body of the try: sys.path.insert, os.chdir(abs_setupdir), exec of the script *)
 Definition body (e : env) (p : program) (s : st) : st * outcome :=
   let s1 := if path_insert_in_try then with_path (e_root e :: path s) s else s in
   let s2 := do_chdir (fake_of outer_patched outer_base k_chdir) (e_real_chdir e) (e_root e) s1 in
-  let s3 := run_ops e (fst p) s2 in
+  let s3 := run_ops e (eff_ops p) s2 in
   (s3, end_outcome e (snd p) s3).
 
 Definition run_fstep (e : env) (tk : ptoks) (f : fstep) (s : st) : option st :=
@@ -398,6 +424,11 @@ Definition analyse_env (e : env) (p : program) (s : st) : result :=
     match enter_parse e s1 with
     | inr s2 => Alive (fst (patch_exit ot s2))
     | inl (s2, tk) =>
+        if read_aborts p then
+          (* the read of the script raised between the installation and the try: nothing of the
+             finally runs, only the outer patch of _fetch_from_setup_py is left *)
+          Alive (fst (patch_exit ot (match enter_installed e s1 with Some s5 => s5 | None => s1 end)))
+        else
         let '(s3, oc) := body e p s2 in
         match oc with
         | Died => Dead
@@ -443,6 +474,50 @@ Definition analyse_pyproject (src : string) (p : program) (s : st) : result :=
     if pyproject_chdir_back_in_finally || (negb exc && ok)
     then Alive (do_chdir None (e_real_chdir e) old_cwd s4)
     else Alive s4.
+
+(* ---------------------------------------------------------------- two PEP 517 analyses on two threads *)
+
+(* _parse_from_prepared_metadata as a sequence of steps on the shared working directory; LOCK is a
+   mutex.  T1: cwd_saved_inside_lock = `old_cwd = os.getcwd()` is a statement of `with LOCK:`. *)
+Inductive tstep := TSave | TAcquire | TChdir (d : string) | TBack | TRelease.
+Definition thread_steps_gen (inside : bool) (src : string) (backend_dirs : list string) : list tstep :=
+  (if inside then [TAcquire; TSave] else [TSave; TAcquire])
+  ++ TChdir src :: map TChdir backend_dirs ++ [TBack; TRelease].
+Definition thread_steps := thread_steps_gen cwd_saved_inside_lock.
+
+Record tstate := mkT {
+  t_cwd : string;
+  t_lock : option bool;            (* who holds LOCK *)
+  t_remA : list tstep; t_remB : list tstep;
+  t_savedA : string; t_savedB : string
+}.
+Definition t_rem (w : bool) (t : tstate) := if w then t_remA t else t_remB t.
+Definition t_saved (w : bool) (t : tstate) := if w then t_savedA t else t_savedB t.
+Definition set_rem (w : bool) (r : list tstep) (t : tstate) : tstate :=
+  if w then mkT (t_cwd t) (t_lock t) r (t_remB t) (t_savedA t) (t_savedB t)
+  else mkT (t_cwd t) (t_lock t) (t_remA t) r (t_savedA t) (t_savedB t).
+Definition set_saved (w : bool) (d : string) (t : tstate) : tstate :=
+  if w then mkT (t_cwd t) (t_lock t) (t_remA t) (t_remB t) d (t_savedB t)
+  else mkT (t_cwd t) (t_lock t) (t_remA t) (t_remB t) (t_savedA t) d.
+Definition set_cwd (d : string) (t : tstate) : tstate :=
+  mkT d (t_lock t) (t_remA t) (t_remB t) (t_savedA t) (t_savedB t).
+Definition set_lock (l : option bool) (t : tstate) : tstate :=
+  mkT (t_cwd t) l (t_remA t) (t_remB t) (t_savedA t) (t_savedB t).
+
+(* thread w takes one step; a thread that waits for the lock (or has finished) does not move *)
+Definition tstep_run (w : bool) (t : tstate) : tstate :=
+  match t_rem w t with
+  | [] => t
+  | TAcquire :: r => match t_lock t with None => set_rem w r (set_lock (Some w) t) | Some _ => t end
+  | TSave :: r => set_rem w r (set_saved w (t_cwd t) t)
+  | TChdir d :: r => set_rem w r (set_cwd d t)
+  | TBack :: r => set_rem w r (set_cwd (t_saved w t) t)
+  | TRelease :: r => set_rem w r (set_lock None t)
+  end.
+Definition trun (sched : list bool) (t : tstate) : tstate := fold_left (fun a w => tstep_run w a) sched t.
+Definition tinit (cwd0 : string) (a b : list tstep) : tstate := mkT cwd0 None a b "" "".
+Definition two_pyproject (cwd0 srcA srcB : string) (dirsA dirsB : list string) (sched : list bool) : tstate :=
+  trun sched (tinit cwd0 (thread_steps srcA dirsA) (thread_steps srcB dirsB)).
 
 (* ---------------------------------------------------------------- project files *)
 
